@@ -9,9 +9,20 @@ Binding B: random planets / pressure ranges / T and mu profiles, n = 1..200, bot
            classes; events levels / step (one per layer, fields read from the *exposed* per-layer
            profiles at index i) / profiles (attributes, generate_profiles(), store_profiles());
            every event validated by TLC at 1e-7 in exact decimal arithmetic + canaries.
+           Array AND file pressure profiles in both admissible input options of Atmosphere.tla
+           (surface first, top first + reverse=True; file units, header, column, delimiter); models
+           observed after their planet / pressure settings were changed through the fitting
+           parameters (kind simple:after-history: the step obligation is local, so it is owed by a
+           long-lived model exactly as by a new one).
+Binding C: spec/Functional.tla walks (harness/history.py): ONE long-lived model, settings changed
+           through model[<fitting parameter>], the full vertical structure after every evaluation
+           must equal that of a freshly built model.
 """
 import math
+import os
 import random
+import shutil
+import tempfile
 from concurrent.futures import ThreadPoolExecutor
 
 import numpy as np
@@ -35,12 +46,64 @@ def _imports():
     from taurex.data.stellar import BlackbodyStar
     from taurex.data.profiles.pressure import SimplePressureProfile
     from taurex.data.profiles.pressure.arraypressure import ArrayPressureProfile
+    from taurex.data.profiles.pressure.filepressure import FilePressureProfile
     from taurex.data.profiles.temperature.temparray import TemperatureArray
+    from taurex.data.profiles.temperature import Isothermal
     from taurex.data.profiles.chemistry import TaurexChemistry, ConstantGas
     from taurex.data.profiles.chemistry.gas.arraygas import ArrayGas
     from taurex import constants as C
     return locals()
 
+
+
+# --------------------------------------------------------------------------- array / file inputs
+FILE_UNITS = ['Pa', 'bar', 'mbar', 'hPa', 'kPa']
+FILE_LAYOUTS = [dict(), dict(skiprows=1), dict(usecols=1), dict(usecols=1, skiprows=2, delimiter=',')]
+_TMP = []
+
+
+def tmpdir():
+    if not _TMP:
+        _TMP.append(tempfile.mkdtemp(prefix='c11-%d-' % os.getpid(), dir='/tmp'))
+    return _TMP[0]
+
+
+def cleanup_tmp():
+    while _TMP:
+        shutil.rmtree(_TMP.pop(), ignore_errors=True)
+
+
+def array_profile(X, klass, input_pa, reverse, unit='Pa', layout=None, tag='p'):
+    """An ArrayPressureProfile / FilePressureProfile for the pressures `input_pa` (Pa) as the user
+    hands them over (orientation already applied) and the flag `reverse`."""
+    arr = np.array([float(x) for x in input_pa])
+    if klass == 'array':
+        return X['ArrayPressureProfile'](arr, reverse=reverse) if reverse else X['ArrayPressureProfile'](arr)
+    from astropy import units as u
+    per = float(u.Unit(unit).to('Pa'))
+    layout = dict(layout or {})
+    col, skip, delim = int(layout.get('usecols', 0)), int(layout.get('skiprows', 0)), layout.get('delimiter')
+    path = os.path.join(tmpdir(), '%s.dat' % tag)
+    sep = delim or ' '
+    with open(path, 'w') as f:
+        for k in range(skip):
+            f.write('# pressure column %d, unit %s\n' % (col, unit))
+        for j, x in enumerate(arr):
+            cells = [repr(float(j))] * col + [repr(float(x / per))]
+            f.write(sep.join(cells) + '\n')
+    kw = dict(filename=path, units=unit, reverse=reverse)
+    if col:
+        kw['usecols'] = col
+    if skip:
+        kw['skiprows'] = skip
+    if delim:
+        kw['delimiter'] = delim
+    return X['FilePressureProfile'](**kw)
+
+
+def option_label(klass, opt, unit=None):
+    return '%s:%s%s%s' % (klass, 'top-first' if opt['orient'] == 'top_first' else 'surface-first',
+                          '+reverse' if opt['reverse'] else '', (':' + unit) if klass == 'file' else '')
 
 # --------------------------------------------------------------------------- binding A
 UNIT_SETS = [dict(T0=500.0, R0=1.0e7, m0=2.0), dict(T0=150.0, R0=2.5e6, m0=11.0)]
@@ -55,7 +118,10 @@ def build_from_vector(v, units, pkind, X):
     if pkind == 'simple':
         pp = X['SimplePressureProfile'](n, 10.0 ** v['lev'][-1], 10.0 ** v['lev'][0])
     else:
-        pp = X['ArrayPressureProfile'](np.array([10.0 ** e for e in v['lay']]))
+        # pkind = dict(klass, opt (index into the spec's exported input options), unit, layout)
+        opt = v['inputs'][pkind['opt']]
+        pp = array_profile(X, pkind['klass'], [10.0 ** e for e in opt['array']], bool(opt['reverse']),
+                           unit=pkind.get('unit', 'Pa'), layout=FILE_LAYOUTS[pkind.get('layout', 0)], tag='vec')
     tp = X['TemperatureArray'](tp_array=[t * T0 for t in v['T']])
     chem = FixedMuChemistry([m * m0 * C.AMU for m in v['mu']])
     model = X['TransmissionModel'](planet=planet, star=X['BlackbodyStar'](), pressure_profile=pp,
@@ -79,7 +145,7 @@ def judge_vector(ctx, v, units, pkind, X):
     model, gm_si = build_from_vector(v, units, pkind, X)
     R0, T0 = units['R0'], units['T0']
     vec = dict(v, units=units, pkind=pkind)
-    cls0 = '%s:n=%d' % (pkind, n)
+    cls0 = '%s:n=%d' % (pkind if pkind == 'simple' else option_label(pkind['klass'], v['inputs'][pkind['opt']], pkind.get('unit')), n)
 
     def cmp(clause, name, got, want, k):
         ok = got is not None and close(got, want, rel=REL, abs_=0.0 if want != 0 else 1e-300)
@@ -119,7 +185,11 @@ def run_vectors(ctx, vecs, X):
         units = UNIT_SETS[j % len(UNIT_SETS)]
         judge_vector(ctx, v, units, 'simple', X)
         if v['n'] >= 2:
-            judge_vector(ctx, v, units, 'array', X)
+            # the spec's input options (orientation x reverse flag) in turn, through both classes
+            nopt = len(v['inputs'])
+            pk = dict(klass='array' if (j // nopt) % 2 == 0 else 'file', opt=j % nopt,
+                      unit=FILE_UNITS[(j // (2 * nopt)) % len(FILE_UNITS)], layout=(j // 3) % len(FILE_LAYOUTS))
+            judge_vector(ctx, v, units, pk, X)
 
 
 # --------------------------------------------------------------------------- projection
@@ -152,6 +222,11 @@ def observed_lengths(model):
 
 # --------------------------------------------------------------------------- binding B
 def random_model(rng, n, pkind, X):
+    """-> (model, declared, label).  pkind: 'simple' | 'array' | 'history'.
+    declared: what the spec is told about the grid: pmax/pmin (simple: the CURRENT settings) or
+    input/reverse (array and file profiles).  'history' is a simple-grid model whose planet and
+    pressure settings are changed through the public fitting parameters (in random order, with
+    evaluations in between) before it is observed."""
     C = X['C']
     tstyle = rng.random()
     if tstyle < 0.3:
@@ -161,13 +236,18 @@ def random_model(rng, n, pkind, X):
         T = list(np.linspace(a, b, n))
     else:
         T = [rng.uniform(200.0, 3000.0) for _ in range(n)]
-    radius_m = rng.uniform(0.05, 2.0) * C.RJUP
-    lmax, lmin = rng.uniform(3.0, 7.0), rng.uniform(-6.0, 1.0)
-    span = (lmax - lmin) * math.log(10.0)
-    # planet mass from a chosen surface scale height (mu ~ 2.3..15 amu): keeps the atmosphere finite
-    h_over_r = 10.0 ** rng.uniform(-4.0, math.log10(0.5 / span))
-    mass_kg = C.KBOLTZ * max(T) * radius_m / (2.0 * C.AMU * C.G * h_over_r)
-    planet = X['Planet'](planet_mass=mass_kg / C.MJUP, planet_radius=radius_m / C.RJUP)
+
+    def draw(radius_m=None):
+        if radius_m is None:
+            radius_m = rng.uniform(0.05, 2.0) * C.RJUP
+        lmax, lmin = rng.uniform(3.0, 7.0), rng.uniform(-6.0, 1.0)
+        span = (lmax - lmin) * math.log(10.0)
+        # planet mass from a chosen surface scale height (mu ~ 2.3..15 amu): keeps the atmosphere finite
+        h_over_r = 10.0 ** rng.uniform(-4.0, math.log10(0.5 / span))
+        mass_kg = C.KBOLTZ * max(T) * radius_m / (2.0 * C.AMU * C.G * h_over_r)
+        return dict(radius=radius_m / C.RJUP, mass=mass_kg / C.MJUP, lmax=lmax, lmin=lmin)
+    cfg = draw()
+    planet = X['Planet'](planet_mass=cfg['mass'], planet_radius=cfg['radius'])
     chem = X['TaurexChemistry'](fill_gases=['H2', 'He'], ratio=rng.uniform(0.05, 0.3))
     mstyle = rng.random()
     if mstyle < 0.3:
@@ -179,28 +259,50 @@ def random_model(rng, n, pkind, X):
     if rng.random() < 0.5:
         chem.addGas(X['ConstantGas']('N2', mix_ratio=10.0 ** rng.uniform(-5, -1)))
     tp = X['TemperatureArray'](tp_array=T)
-    if pkind == 'simple':
+    lmax, lmin = cfg['lmax'], cfg['lmin']
+    declared = dict(input=[], reverse=False, radius=cfg['radius'], mass=cfg['mass'])   # the settings as the user made them
+    if pkind in ('simple', 'history'):
         pp = X['SimplePressureProfile'](n, 10.0 ** lmin, 10.0 ** lmax)
-        pmax, pmin = 10.0 ** lmax, 10.0 ** lmin
+        declared.update(pmax=10.0 ** lmax, pmin=10.0 ** lmin)
+        label = 'simple'
     else:
+        # layer pressures with moderately uneven log steps (ratio of neighbouring steps < 1.8): every
+        # reading of "the levels of an array profile" brackets these layers with decreasing levels
         steps = [rng.uniform(1.0, 1.8) for _ in range(n - 1)]
         tot = sum(steps)
         lp = [lmax]
-        for s in steps:
-            lp.append(lp[-1] - s * (lmax - lmin) / tot)
-        arr = np.array([10.0 ** e for e in lp])
-        if rng.random() < 0.3:
-            pp = X['ArrayPressureProfile'](arr[::-1].copy(), reverse=True)
-        else:
-            pp = X['ArrayPressureProfile'](arr)
-        pmax = pmin = None
+        for st in steps:
+            lp.append(lp[-1] - st * (lmax - lmin) / tot)
+        lay = [10.0 ** e for e in lp]                       # surface first
+        opt = dict(orient='top_first', reverse=True) if rng.random() < 0.5 else dict(orient='surface_first', reverse=False)
+        given = lay[::-1] if opt['orient'] == 'top_first' else lay
+        klass = 'file' if rng.random() < 0.4 else 'array'
+        unit = rng.choice(FILE_UNITS)
+        pp = array_profile(X, klass, given, opt['reverse'], unit=unit, layout=rng.choice(FILE_LAYOUTS), tag='rnd')
+        declared.update(input=given, reverse=opt['reverse'])
+        label = option_label(klass, opt, unit)
     model = X['TransmissionModel'](planet=planet, star=X['BlackbodyStar'](), pressure_profile=pp,
                                    temperature_profile=tp, chemistry=chem)
     model.build()
-    return model, pmax, pmin
+    if pkind == 'history':
+        # a second configuration; the radius stays within a factor 1.4 so that the intermediate
+        # (mixed) configurations are ordinary atmospheres too
+        cfg2 = draw(radius_m=cfg['radius'] * C.RJUP * rng.uniform(0.7, 1.4))
+        todo = [('planet_radius', cfg2['radius']), ('planet_mass', cfg2['mass']),
+                ('atm_max_pressure', 10.0 ** cfg2['lmax']), ('atm_min_pressure', 10.0 ** cfg2['lmin'])]
+        rng.shuffle(todo)
+        todo = todo[:rng.randint(1, 4)]
+        for name, value in todo:
+            model[name] = value
+            if rng.random() < 0.5:
+                model.initialize_profiles()
+            declared[dict(atm_max_pressure='pmax', atm_min_pressure='pmin', planet_radius='radius', planet_mass='mass')[name]] = value
+        model.initialize_profiles()
+        label = 'simple:after-history:' + '+'.join(sorted(nm for nm, _ in todo))
+    return model, declared, label
 
 
-def events_of(model, mid, pkind, pmax, pmin, X):
+def events_of(model, mid, pkind, declared, X):
     """Project one built model to trace events.  Every per-layer field is read from the exposed
     profile at index i; absent entries become [-1, 0]."""
     C = X['C']
@@ -208,10 +310,11 @@ def events_of(model, mid, pkind, pmax, pmin, X):
     lev = np.asarray(model.pressure.pressure_profile_levels, dtype=float)
     lay = np.asarray(model.pressureProfile, dtype=float)
     ev = []
-    e = dict(ev='levels', id='%s:levels' % mid, n=n, kind=pkind, ppb=PPB,
-             lev=[dec(x) for x in lev], lay=[dec(x) for x in lay])
-    if pkind == 'simple':
-        e['pmax'], e['pmin'] = dec(pmax), dec(pmin)
+    e = dict(ev='levels', id='%s:levels' % mid, n=n, kind='simple' if pkind in ('simple', 'history') else 'array', ppb=PPB,
+             lev=[dec(x) for x in lev], lay=[dec(x) for x in lay],
+             input=[dec(x) for x in declared['input']], reverse=bool(declared['reverse']))
+    if e['kind'] == 'simple':
+        e['pmax'], e['pmin'] = dec(declared['pmax']), dec(declared['pmin'])
     ev.append(e)
     zb = model.altitude_boundaries
     za = model.altitudeProfile
@@ -222,8 +325,8 @@ def events_of(model, mid, pkind, pmax, pmin, X):
         lr = ln_ratio(lev[i], lev[i + 1]) if (len(lev) == n + 1 and lev[i] > 0 and lev[i + 1] > 0 and lev[i] > lev[i + 1]) else None
         vals = dict(z0=at(za, i), z1=at(zb, i + 1), dz=at(model.deltaz, i), H=at(gen.get('scaleheight_profile'), i),
                     g=at(gen.get('gravity_profile'), i), T=at(model.temperatureProfile, i), mu=at(mu, i), Lr=lr,
-                    rho=at(model.densityProfile, i), P=at(lay, i), rad=float(model.planet.fullRadius),
-                    gm=float(C.G * model.planet.fullMass), kB=float(C.KBOLTZ))
+                    rho=at(model.densityProfile, i), P=at(lay, i), rad=float(declared['radius'] * C.RJUP),
+                    gm=float(C.G * declared['mass'] * C.MJUP), kB=float(C.KBOLTZ))
         # the attribute and the stored dictionary must agree entry by entry (same array)
         if at(model.scaleheight_profile, i) != vals['H'] or at(model.gravity_profile, i) != vals['g']:
             vals['H'] = None
@@ -269,28 +372,30 @@ def validate_chunks(events, chunk=6000, threads=4):
 def run_traces(ctx, X):
     q = ctx.tier == 'quick'
     rng = random.Random(ctx.seed * 104729 + 11)
-    events, meta, skipped = [], {}, 0
+    events, meta, labels = [], {}, {}
     nmodels = 0
     for n in layer_counts(rng, q):
         kinds = ['simple'] if n < 2 else (['simple', 'array'] if rng.random() < 0.6 else [rng.choice(['simple', 'array'])])
+        if rng.random() < 0.35:
+            kinds.append('history')
         for pkind in kinds:
             sub = rng.getrandbits(48)
-            model, pmax, pmin = random_model(random.Random(sub), n, pkind, X)
-            lev = np.asarray(model.pressure.pressure_profile_levels, dtype=float)
-            if pkind == 'array' and not (np.all(lev > 0) and np.all(np.diff(lev) < 0)):
-                skipped += 1      # outside the quantifier: "for any decreasing levels"
-                continue
+            model, declared, label = random_model(random.Random(sub), n, pkind, X)
+            # no case is dropped because of what the code produced: the inputs are inside the quantifier
+            # by construction (min < max; array / file layers decreasing in the declared orientation)
             mid = 'm%d' % nmodels
             nmodels += 1
-            ev, floats = events_of(model, mid, pkind, pmax, pmin, X)
+            ev, floats = events_of(model, mid, pkind, declared, X)
             steps = [e for e in ev if e['ev'] == 'step']
             recipe = dict(trace=True, sub=sub, n=n, pkind=pkind, mid=mid)
             for e, f in zip(steps, floats):
-                meta[e['id']] = (pkind, n, f, recipe)
+                meta[e['id']] = (label, n, f, recipe)
             for e in ev:
                 if e['ev'] != 'step':
-                    meta[e['id']] = (pkind, n, None, recipe)
+                    meta[e['id']] = (label, n, None, recipe)
             events += ev
+            short = 'simple:after-history' if pkind == 'history' else label
+            labels[short] = labels.get(short, 0) + 1
     if nmodels < 20:
         raise Machinery('too few models generated')
     nbad_total = 0
@@ -306,8 +411,8 @@ def run_traces(ctx, X):
             pkind, n, f, recipe = meta[e['id']]
             why = set(badids[e['id']]['why']) if e['id'] in badids else set()
             if e['ev'] == 'levels':
-                clauses = ['levels_wellformed', 'levels_strictly_decreasing'] + \
-                          (['layer_is_geometric_mean', 'levels_log_spaced'] if pkind == 'simple' else [])
+                clauses = ['levels_wellformed', 'levels_strictly_decreasing', 'levels_bracket_layers'] + \
+                          (['layer_is_geometric_mean', 'levels_log_spaced'] if e['kind'] == 'simple' else ['layers_are_oriented_input'])
                 for c in clauses:
                     ctx.verdict(c, c not in why, cls='%s:trace:levels' % pkind, detail='TLC rejected %s (n=%d)' % (e['id'], n),
                                 vector=dict(recipe, event=e if n <= 12 else dict(id=e['id'], n=n)))
@@ -327,8 +432,13 @@ def run_traces(ctx, X):
                             detail='%s (n=%d): wrong number of entries in %s' % (e['id'], n, wrong),
                             vector=dict(recipe, event=e))
     ctx.traces += nmodels
-    ctx.note('binding B: %d models, %d events (%d step events), %d array profiles skipped (derived levels not decreasing)'
-             % (nmodels, len(events), sum(1 for e in events if e['ev'] == 'step'), skipped))
+    ctx.note('binding B: %d models, %d events (%d step events); by input class: %s'
+             % (nmodels, len(events), sum(1 for e in events if e['ev'] == 'step'),
+                ', '.join('%s=%d' % kv for kv in sorted(labels.items()))))
+    need = ['simple', 'simple:after-history', 'array:surface-first', 'array:top-first+reverse', 'file:surface-first', 'file:top-first+reverse']
+    missing = [k for k in need if not any(lb.startswith(k) for lb in labels)]
+    if missing:
+        raise Machinery('input classes never generated: %r' % missing)
     ctx.add_sample(dict(trace_event=next(e for e in events if e['ev'] == 'step')))
     ctx.add_sample(dict(trace_event=next(e for e in events if e['ev'] == 'profiles')))
     run_canaries(events, allbad)
@@ -358,12 +468,88 @@ def run_canaries(events, allbad):
     if levs:
         d = dict(levs[0]); d['lay'] = [list(x) for x in d['lay']]; d['lay'][0][0] += 5000; d['id'] = 'canary-geo'; can.append(d)
         want.append('canary-geo')
+    arrs = [e for e in events if e['ev'] == 'levels' and e['kind'] == 'array' and e['n'] >= 2]
+    if arrs:
+        # the flag flipped (layers then do not follow the declared orientation); levels listed top first
+        a = dict(arrs[0]); a['reverse'] = not a['reverse']; a['id'] = 'canary-orientation'; can.append(a)
+        b = dict(arrs[-1]); b['lev'] = list(reversed(b['lev'])); b['id'] = 'canary-levels-reversed'; can.append(b)
+        want += ['canary-orientation', 'canary-levels-reversed']
+    elif not allbad:
+        raise Machinery('no array-profile event available for the canaries')
     if not can:
         return
     ok, bad, res = validate_trace('Trace_Atmosphere', 'Trace_Atmosphere.cfg', can)
     got = sorted(x['id'] for x in bad)
     if got != sorted(want):
         raise Machinery('canary: expected the corrupted events %r to be rejected, TLC rejected %r' % (sorted(want), got))
+
+
+# --------------------------------------------------------------------------- binding C: history walks
+def structure(model, C):
+    """The full vertical structure as exposed after (re-)initialisation."""
+    gen = model.generate_profiles()
+    return dict(levels=np.asarray(model.pressure.pressure_profile_levels), layers=np.asarray(model.pressureProfile),
+                z=np.asarray(model.altitude_boundaries), zl=np.asarray(model.altitudeProfile), dz=np.asarray(model.deltaz),
+                g=np.asarray(model.gravity_profile), H=np.asarray(model.scaleheight_profile),
+                rho=np.asarray(model.densityProfile), T=np.asarray(model.temperatureProfile),
+                mu=np.asarray(model.chemistry.muProfile), g0=float(model.planet.gravity),
+                stored={k: np.asarray(v) for k, v in gen.items() if k in LAYER_KEYS})
+
+
+def history_scenarios(X):
+    from .. import history
+    C = X['C']
+
+    class OneModel(history.Scenario):
+        """ONE long-lived TransmissionModel; settings through model[<fitting parameter>]."""
+
+        def __init__(self, name, params, dims, n, base):
+            self.name, self.params, self.dims, self.n, self.base = name, params, dims, n, base
+
+        def fresh(self, v):
+            c = dict(self.base)
+            c.update(dict(zip(self.params, v)))
+            chem = X['TaurexChemistry'](fill_gases=['H2', 'He'], ratio=0.17)
+            chem.addGas(X['ConstantGas']('H2O', mix_ratio=1e-3))
+            m = X['TransmissionModel'](planet=X['Planet'](planet_mass=c['planet_mass'], planet_radius=c['planet_radius']),
+                                       star=X['BlackbodyStar'](), temperature_profile=X['Isothermal'](T=c['T']),
+                                       chemistry=chem, nlayers=self.n, atm_min_pressure=c['atm_min_pressure'],
+                                       atm_max_pressure=c['atm_max_pressure'])
+            m.build()
+            return m
+
+        def set(self, m, d, value, values):
+            m[self.params[d]] = value
+
+        def observe(self, m):
+            m.initialize_profiles()
+            return structure(m, C)
+
+    base = dict(planet_mass=1.0, planet_radius=1.0, T=1200.0, atm_min_pressure=1e-1, atm_max_pressure=1e6)
+    return [OneModel('planet', ['planet_radius', 'planet_mass', 'T'], [[0.7, 1.0, 1.35], [0.6, 1.0, 2.2], [700.0, 1200.0, 1900.0]], 9, base),
+            OneModel('grid', ['atm_max_pressure', 'atm_min_pressure', 'planet_radius'],
+                     [[1e4, 1e5, 1e7], [1e-3, 1e-1, 5.0], [0.8, 1.0, 1.2]], 6, base),
+            OneModel('one-layer', ['atm_max_pressure', 'planet_radius', 'planet_mass'],
+                     [[1e3, 1e5, 1e6], [0.9, 1.0, 1.5], [0.5, 1.0, 1.6]], 1, base)]
+
+
+def replay_history(ctx, v, X):
+    from ..history import digest
+    vec = v['vector']
+    sc = next((s for s in history_scenarios(X) if s.name == vec['history']), None)
+    if sc is None:
+        raise Machinery('replay: unknown history scenario %r' % vec['history'])
+    vals = list(vec['init'])
+    obj = sc.fresh(list(vals))
+    ok = True
+    for step in vec['trail']:
+        if step.startswith('set'):
+            d, val = step[3:].split('=', 1)
+            vals[int(d)] = float(val)
+            sc.set(obj, int(d), float(val), list(vals))
+        elif step.startswith('eval'):
+            ok = ok and digest(sc.observe(obj)) == digest(sc.observe(sc.fresh(list(vals))))
+    ctx.verdict(v['clause'], ok, cls=v['cls'], detail='replay of the walk %r from %r' % (vec['trail'], vec['init']), vector=vec)
 
 
 # --------------------------------------------------------------------------- entry points
@@ -378,13 +564,14 @@ def run(ctx):
     q = ctx.tier == 'quick'
     ctx.bounds = dict(tier=ctx.tier,
                       exhaustive='n<=3 layers, integer log10 level exponents (spacing 2 or 4), T in {1,2,3}, mu in {1,2}, rad 8, GM in {64,128} (exact rationals)',
-                      vectors='every exported grid through SimplePressureProfile and ArrayPressureProfile (n>=2), two unit maps',
+                      vectors='every exported grid through SimplePressureProfile and (n>=2) Array/FilePressureProfile in the spec\'s input options (surface first; top first + reverse), two unit maps',
                       traces='n in 1..200, random planets (H0/R 1e-4..~0.03), pressure ranges 1e-6..1e7 Pa, random T (200..3000 K) and mu (ArrayGas) profiles')
     ctx.assumptions = ['ln(P_i/P_{i+1}) is evaluated by the harness (math.log) from the exposed levels',
                        'physical constants (k_B, G, amu) are those of taurex.constants; planet mass/radius are read in SI from the Planet object',
                        'TLC + CommunityModules Json/IOUtils; spec/Dec.tla decimal arithmetic',
                        'FixedMuChemistry double supplies exact small mu values in binding A; binding B uses the real TaurexChemistry',
-                       'ArrayPressureProfile: only inputs whose derived levels decrease (the property\'s premise); n>=2']
+                       'array / file pressure profiles: layer pressures decreasing in the declared orientation with neighbouring log steps within a factor 1.8, n>=2; the two options that expose the layers top first are outside the quantifier',
+                       'history walks: settings changed through model[<fitting parameter>], observed after initialize_profiles(); reference = freshly built model']
     tier = ctx.tier
     ctx.check_spec('exhaustive', 'MC_Atmosphere', 'MC_Atmosphere_%s.cfg' % tier, need_actions=('Levels', 'Step', 'Profiles'))
     ctx.expect_refuted('droplast-refuted', 'MC_Atmosphere', 'MC_Atmosphere_droplast.cfg', 'OneEntryPerLayer')
@@ -398,25 +585,41 @@ def run(ctx):
         rest = [v for v in vecs if v['n'] < 3]
         rng.shuffle(keep)
         vecs = rest[::2] + keep[:120]
-    run_vectors(ctx, vecs, X)
-    ctx.note('binding A: %d exported vectors replayed' % len(vecs))
-    run_traces(ctx, X)
+    try:
+        run_vectors(ctx, vecs, X)
+        ctx.note('binding A: %d exported vectors replayed' % len(vecs))
+        run_traces(ctx, X)
+    finally:
+        cleanup_tmp()
+    from .. import history
+    nh = history.run_history(ctx, history_scenarios(X), 8 if q else 60)
+    ctx.note('binding C: %d history walks on long-lived models (planet / grid / one-layer settings)' % nh)
 
 
 def replay(ctx, violations):
     """Re-drive the real code: rebuild the model of each stored vector / random recipe, project it
     again and judge the fresh event (one TLC run for all trace events)."""
     X = setup()
+    try:
+        _replay(ctx, violations, X)
+    finally:
+        cleanup_tmp()
+
+
+def _replay(ctx, violations, X):
     models, items = {}, []
     for v in violations:
         vec = v['vector']
+        if vec.get('history'):
+            replay_history(ctx, v, X)
+            continue
         if not vec.get('trace'):
             judge_vector(ctx, {k: vec[k] for k in vec if k not in ('units', 'pkind')}, vec['units'], vec['pkind'], X)
             continue
         key = (vec['sub'], vec['n'], vec['pkind'])
         if key not in models:
-            model, pmax, pmin = random_model(random.Random(vec['sub']), vec['n'], vec['pkind'], X)
-            ev, floats = events_of(model, vec['mid'], vec['pkind'], pmax, pmin, X)
+            model, declared, _ = random_model(random.Random(vec['sub']), vec['n'], vec['pkind'], X)
+            ev, floats = events_of(model, vec['mid'], vec['pkind'], declared, X)
             fl = dict(zip([e['id'] for e in ev if e['ev'] == 'step'], floats))
             models[key] = ({e['id']: e for e in ev}, fl)
         evs, fl = models[key]
